@@ -2,3 +2,4 @@ import MtailVerif.Props.C16
 #print axioms MtailVerif.C16.filestream_shape
 #print axioms MtailVerif.C16.observed_history_exact
 #print axioms MtailVerif.FileStream.step_inv
+#print axioms MtailVerif.C16.stopped_history_exact
